@@ -383,6 +383,9 @@ func (g *gen) genOp(writable bool) []Op {
 			}
 		}
 		op.VLen = g.valLen()
+		if op.VLen == 0 && g.t.Chance(1, 2) {
+			op.NilV = true // the empty value passed as a nil slice
+		}
 		g.tag++
 		op.VTag = g.tag
 		g.reg(op.Key, op.Pad)
